@@ -218,6 +218,35 @@ void wrapGridCase(Ctx& ctx, bool saved)
 	ctx.state(n); ctx.trace();
 }
 
+// (2b') a representable but giant map: 32768 x 32768 tiles are 2^30 tile words, exactly 2^32 bytes - a byte count kept in 32 bits
+// wraps to 0. The file holds the header and eight tile words, so it is a (very) proper prefix of the real thing and must be
+// refused. The reader may allocate the 4 GiB tile array before it notices; the case runs only where that much memory is free.
+void giantCase(Ctx& ctx)
+{
+	uint64_t availKiB = 0;
+	if (FILE* f = std::fopen("/proc/meminfo", "r")) { char line[256]; while (std::fgets(line, sizeof line, f)) { unsigned long long v; if (std::sscanf(line, "MemAvailable: %llu kB", &v) == 1) availKiB = v; } std::fclose(f); }
+	if (availKiB < (uint64_t(24) << 20)) { ctx.count("giant/skipped-for-lack-of-memory"); ctx.state(); return; }
+	std::size_t savedCap = mc::alloc_cap; mc::alloc_cap = std::size_t(5) << 30;
+	std::vector<int> z(mapc::kDims, 0);
+	ref::RMap m = mapc::makeMap(z);
+	m.lgWidth = 15; m.height = 32768;
+	for (std::size_t words : { std::size_t(0), std::size_t(8) }) {   // 0 words: the file a reader with a wrapped byte count takes for complete
+		m.tiles.assign(words, 0x12345678u);
+		std::vector<uint8_t> b = ref::encodeMap(m);
+		std::string key = "map lgWidth=15 & height=32768 (2^30 tiles, 2^32 bytes of tile data) with " + std::to_string(words) + " tile words in the file";
+		ctx.sub(key);
+		std::unique_ptr<uint8_t[]> buf(new uint8_t[b.size()]);
+		std::memcpy(buf.get(), b.data(), b.size());
+		Map mm; SeedDef sd; sd.saved = false;
+		auto o = parse(sd, buf.get(), b.size(), mm);
+		ctx.transition(); ctx.count("giant/files");
+		if (o.cls == 'X') ctx.violation("C07/giant/non-std-exception", key, "");
+		else if (o.cls == 'R') ctx.violation("C07/giant/file-without-the-tile-data-of-a-giant-map-accepted", key, "returned " + std::to_string(mm.tiles.size()) + " tiles");
+	}
+	mc::alloc_cap = savedCap;
+	ctx.state(); ctx.trace();
+}
+
 // (2c) saved games whose unit table really has records of the size the sizeOfUnit field names (with no units the field
 // is not pinned to 120), followed by plenty of data: a reader that trusts the field for the fixed unit table writes
 // outside it (ASan); every outcome must be an ordinary error or a map
@@ -286,6 +315,19 @@ void equivalenceCase(Ctx& ctx, std::size_t part, std::size_t parts)
 			auto ot = mc::guarded([&] { c3 = Map::ReadSavedGame(Stream::FileReader(path)); });   // the overload taking a temporary stream
 			if (ot.cls != 'R' || mapc::dump(c3) != mapc::dump(b)) { ctx.violation("C07/equivalence/saved-game-temporary-stream-overload-differs", key, ot.what); continue; }
 			ctx.count("equivalence/file-overload");
+			// the saved game (and the map) embedded behind k foreign bytes, the stream handed over at position k
+			bool differs = false;
+			for (std::size_t k : { std::size_t(1), std::size_t(62) }) for (int saved = 0; saved < 2 && !differs; ++saved) {
+				const auto& body = saved ? sb : mb;
+				std::unique_ptr<uint8_t[]> p(new uint8_t[k + body.size()]);
+				std::memset(p.get(), 0xEE, k); std::memcpy(p.get() + k, body.data(), body.size());
+				Map e;
+				auto oe = mc::guarded([&] { Stream::MemoryReader rd(p.get(), k + body.size()); rd.Seek(k); e = saved ? Map::ReadSavedGame(rd) : Map::ReadMap(rd); });
+				ctx.transition();
+				if (oe.cls != 'R' || mapc::dump(e) != mapc::dump(saved ? b : a)) { ctx.violation(std::string("C07/equivalence/") + (saved ? "saved-game" : "map") + "-read-from-a-stream-position-other-than-0-differs", key + " behind " + std::to_string(k) + " bytes", oe.what); differs = true; }
+			}
+			if (differs) continue;
+			ctx.count("equivalence/stream-not-at-its-beginning");
 		}
 		ctx.count("equivalence/pairs");
 		ctx.state(); ctx.trace();
@@ -315,6 +357,7 @@ void build(Ctx& ctx)
 	gCases.push_back({ 4, 0, 0, 0 });
 	gCases.push_back({ 4, 0, 1, 0 });
 	gCases.push_back({ 5, 0, 0, 0 });
+	if (ctx.thorough) gCases.push_back({ 7, 0, 0, 0 });
 	for (std::size_t p = 0; p < 8; ++p) gCases.push_back({ 3, 0, p, 8 });
 }
 
@@ -327,6 +370,7 @@ void runCase(std::size_t i, Ctx& ctx)
 	case 2: gridCase(ctx, gSeeds[c.seed]); break;
 	case 4: wrapGridCase(ctx, c.from != 0); break;
 	case 5: unitSizeCase(ctx); break;
+	case 7: giantCase(ctx); break;
 	case 6: filePrefixCase(ctx, gSeeds[c.seed]); break;
 	default: equivalenceCase(ctx, c.from, c.to);
 	}
